@@ -115,6 +115,20 @@ def _check_split(cx: Cx, ob: Ob, fn, s) -> None:
             if op(x) == "call" and op(x[1]) == "attr" and x[1][1] == curie:
                 P = x
         if P is None:
+            # the string that is cut is a REWRITTEN form of the argument (stripped, case-changed, ..): what the
+            # caller gets back is then not a cut of the CURIE it passed
+            REWRITE = ("strip", "lstrip", "rstrip", "lower", "upper", "casefold", "replace", "removeprefix", "removesuffix", "translate", "title", "capitalize")
+            rw = [x for x in subterms(a) if op(x) == "call" and op(x[1]) == "attr" and x[1][2] in ("partition", "split", "rpartition", "rsplit", "find", "index") and op(x[1][1]) == "call" and op(x[1][1][1]) == "attr" and x[1][1][1][1] == curie and x[1][1][1][2] in REWRITE]
+            if rw:
+                inner = rw[0][1][1]
+                ob.violate(
+                    fn.qualname,
+                    where(fn, line),
+                    f"_split cuts `{show(inner)[:40]}`, a rewritten form of its argument, not the CURIE it is given: characters of the identifier (and of the prefix) that the rewrite removes or changes are lost - the identifier is no longer the remainder after the first separator",
+                    witness=f"an identifier that ends in a character `{inner[1][2]}` touches: the CURIE printed for a URI does not parse back to it",
+                    detail="argument-rewritten",
+                )
+                continue
             ob.undecide("_split does not dissect its argument with a str method")
             continue
         m = callee_name(P)
@@ -155,6 +169,14 @@ def _check_split(cx: Cx, ob: Ob, fn, s) -> None:
                 ob.undecide(f"_split returns `{show(t)[:70]}` from str.{m}: slices not recognised")
         elif m in ("rpartition", "rsplit"):
             ob.violate(fn.qualname, where(fn, line), f"_split uses str.{m}, which cuts at the LAST separator", witness="'a:b:c' must give ('a', 'b:c'), not ('a:b', 'c')", detail="last-occurrence")
+        elif m in ("strip", "lstrip", "rstrip", "lower", "upper", "casefold", "replace", "removeprefix", "removesuffix", "translate", "title", "capitalize"):
+            ob.violate(
+                fn.qualname,
+                where(fn, line),
+                f"_split cuts `{show(P)[:40]}`, a rewritten form of its argument, not the CURIE it is given: characters of the identifier (and of the prefix) that the rewrite removes or changes are lost - the identifier is no longer the remainder after the first separator",
+                witness=f"an identifier that ends in a character str.{m} touches: the CURIE printed for a URI does not parse back to it",
+                detail="argument-rewritten",
+            )
         else:
             ob.undecide(f"_split dissects with str.{m}")
     # the raise
